@@ -371,6 +371,17 @@ func runC18(r *core.Run) {
 			if p.hot {
 				b = hotBound
 			}
+			if r.Replaying() && len(r.ReplaySchedule) > 0 {
+				// replay of one recorded schedule, without the explorer
+				x := run(r.ReplaySchedule)
+				fmt.Printf("REPLAY schedule %v of program %s: %d scheduling points\n", x.Choices, id, len(x.Points))
+				for i, p := range x.Points {
+					fmt.Printf("  point %3d: after goroutine %d reached %-28s enabled %v -> runs %d\n", i, p.Running, p.What, p.Enabled, p.Enabled[p.Chosen])
+				}
+				fmt.Printf("  results: %q (alone: %q)\n", x.Results, want)
+				check(x)
+				return fail
+			}
 			// iterative context bounding: everything with 0 preemptions, then <= 1, then <= 2; the bound reported as
 			// completed is the last one whose exploration ended without reaching the execution cap
 			completed, execs := -1, 0
